@@ -8,6 +8,7 @@ import (
 	"fmt"
 
 	"github.com/Oneledger/protocol/action"
+	action_gov "github.com/Oneledger/protocol/action/governance"
 	action_nd "github.com/Oneledger/protocol/action/network_delegation"
 	"github.com/Oneledger/protocol/data/balance"
 	netwkDeleg "github.com/Oneledger/protocol/data/network_delegation"
@@ -98,4 +99,59 @@ func SV_C06_failed_delegation_then_next() {
 	sv.Assert(svSameWrites(svBlockWrites(e1.app), svBlockWrites(e2.app)), "same-block-writes-without-the-refused-transaction")
 	sv.Cover(r2.Code == 0, "next-executed")
 	sv.Cover(raw1.Type == action.NETWORK_UNDELEGATE && r2.Code == 0, "refused-undelegation-then-executed")
+}
+
+// SV_C06_failed_governance_then_next: block [refused, next] against block [next]
+// for the proposal funding family.
+//
+// sv:bounds the proposal pre-state of SV_C14_funds_and_stage for 2 parties (absent, funding, voting, cancelled, under-funded, expired, voted down, passed, finalised; arbitrary goal, deadline and contributions; A elected, B staked but not elected); the refused transaction: fund, withdraw-funds or cancel by A with an arbitrary amount, admitted by Validate and refused at delivery; the next transaction: fund or withdraw-funds by B with another arbitrary amount
+// sv:outside create / vote / finalise in the sequence; more than one refused transaction
+// sv:goal the next transaction has the same code and gas, and the block ends with the same ledger, the same proposal stage and the same block writes as the block without the refused transaction
+func SV_C06_failed_governance_then_next() {
+	svCurrencyLimit = 1
+	sv.NominalSizes(64)
+	build := func() *svEnv { return svNewEnv(2, 20, svPreGov(&svPropPre{})) }
+	a, b := svParty_(0).Addr, svParty_(1).Addr
+	amt := func(tag string) action.Amount {
+		return action.Amount{Currency: "OLT", Value: *balance.NewAmountFromBigInt(sv.BigInt(tag + ".value"))}
+	}
+	var raw1 action.RawTx
+	switch sv.Choice("refused.kind", 3) {
+	case 0:
+		raw1 = svRaw(action.PROPOSAL_FUND, &action_gov.FundProposal{ProposalId: svPropID, FunderAddress: a, FundValue: amt("amount1")})
+	case 1:
+		raw1 = svRaw(action.PROPOSAL_WITHDRAW_FUNDS, &action_gov.WithdrawFunds{ProposalID: svPropID, Funder: a, WithdrawValue: amt("amount1"), Beneficiary: a})
+	default:
+		raw1 = svRaw(action.PROPOSAL_CANCEL, &action_gov.CancelProposal{ProposalId: svPropID, Proposer: a, Reason: "r"})
+	}
+	var raw2 action.RawTx
+	if sv.Choice("next.kind", 2) == 0 {
+		raw2 = svRaw(action.PROPOSAL_FUND, &action_gov.FundProposal{ProposalId: svPropID, FunderAddress: b, FundValue: amt("amount2")})
+	} else {
+		raw2 = svRaw(action.PROPOSAL_WITHDRAW_FUNDS, &action_gov.WithdrawFunds{ProposalID: svPropID, Funder: b, WithdrawValue: amt("amount2"), Beneficiary: b})
+	}
+	raw2.Memo = "next"
+	tx1, tx2 := svSign(raw1, 0), svSign(raw2, 1)
+	e1, e2 := build(), build()
+	sv.Assume(e1.validate(tx1))
+	sv.Assume(e1.validate(tx2))
+	fresh := func(e *svEnv) { e.app.Context.deliver = e.app.Context.deliver.WithGas(svEnvGas()) }
+	fresh(e1)
+	r1 := svDeliver(e1.app, tx1)
+	sv.Assume(r1.Code != 0)
+	fresh(e1)
+	r2 := svDeliver(e1.app, tx2)
+	fresh(e2)
+	q2 := svDeliver(e2.app, tx2)
+	sv.Observe("code2", r2.Code)
+	sv.Assert(q2.Code == r2.Code && q2.GasUsed == r2.GasUsed, "same-result-without-the-refused-transaction")
+	l1, l2 := e1.ledger(), e2.ledger()
+	for k, c := range l1.cells {
+		sv.Assert(c.V.Cmp(l2.cells[k].V) == 0, "same-ledger-without-the-refused-transaction")
+	}
+	p1, s1 := svPropStage(e1, svPropID)
+	p2, s2 := svPropStage(e2, svPropID)
+	sv.Assert(s1 == s2 && (p1 == nil) == (p2 == nil) && (p1 == nil || (p1.Status == p2.Status && p1.Outcome == p2.Outcome)), "same-proposal-stage-without-the-refused-transaction")
+	sv.Assert(svSameWrites(svBlockWrites(e1.app), svBlockWrites(e2.app)), "same-block-writes-without-the-refused-transaction")
+	sv.Cover(r2.Code == 0, "next-executed")
 }
